@@ -33,6 +33,16 @@ def prove_slot_selection(src_root, ex: Explorer):
         t = o['t']
         in_up, in_down = any(x is t for x in o['uploads']), any(x is t for x in o['downloads'])
         free = t.attrs['_transfer_task'] is None and t.attrs['_remotely_queue_task'] is None
+        w, sidx = o['w'], t.ghost['state']
+        if in_down:
+            restartable = z3.Or(sidx == w.state_idx('QUEUED'), sidx == w.state_idx('INCOMPLETE'),
+                                z3.And(sidx == w.state_idx('FAILED'), z3.BoolVal(t.attrs['fail_reason'] is None)))
+            ctx.prove('C06.final.stopped-download-not-selected', restartable,
+                      'a download that is PAUSED / ABORTED / COMPLETE (or not yet queued, or failed for a reason) is selected for a new '
+                      'negotiation: every management cycle sends the queue request again for a transfer the user stopped')
+        if in_up:
+            ctx.prove('C06.final.stopped-upload-not-selected', sidx == w.state_idx('QUEUED'),
+                      'an upload that is not QUEUED is selected to be started')
         if in_down:
             ctx.prove('C06.slot-free#manage_transfers.download', free,
                       'a download whose remote-queue attempt (or initialisation) is still in flight is selected again: a second '
@@ -253,6 +263,63 @@ def prove_remove(src_root, ex: Explorer):
     ex.run(path, 'remove')
 
 
+PEER_HANDLERS = [
+    # (handler, direction of the transfer, message factory)
+    ('_on_peer_transfer_queue', 'UPLOAD', lambda it: Stub('PeerTransferQueue', filename='path')),
+    ('_on_peer_transfer_request', 'UPLOAD', lambda it: Stub('PeerTransferRequest', filename='path', ticket=5, direction=0, filesize=None)),
+    ('_on_peer_transfer_request', 'DOWNLOAD', lambda it: Stub('PeerTransferRequest', filename='path', ticket=5, direction=1, filesize=10)),
+    ('_on_peer_upload_failed', 'DOWNLOAD', lambda it: Stub('PeerUploadFailed', filename='path')),
+    ('_on_peer_transfer_queue_failed', 'DOWNLOAD', lambda it: Stub('PeerTransferQueueFailed', filename='path', reason='Cancelled')),
+]
+
+
+def prove_peer_messages_after_stop(src_root, ex: Explorer):
+    """A transfer the USER aborted or paused is not brought back by the peer's messages about the same file: for every peer message that
+    designates the transfer (repeated queue request, transfer request in both directions, upload failed, queue failed) and the real
+    ABORTED / PAUSED state objects (whose operations refuse what the graph does not allow - C03), the handler leaves the state object in
+    place, notifies nobody, starts no task and leaves both task slots alone; a transfer request is answered with a refusal."""
+    def path(ctx: Ctx):
+        it = mk(src_root, ctx)
+        effects: list = []
+        C03.install_env(it, ctx, effects)
+        hname, direction, mk_msg = PEER_HANDLERS[ctx.choose(len(PEER_HANDLERS), 'handler')]
+        sname = ['AbortedState', 'PausedState'][ctx.choose(2, 'state')]
+        if hname == '_on_peer_transfer_queue_failed' and sname == 'PausedState':
+            return      # PAUSED -> FAILED on the peer's refusal is an edge of the documented graph (C03 EDGES): not a resurrection
+        notified: list = []
+        t, lock = C03.mk_transfer(it, ctx, direction, notified)
+        st = it.call(cls(it, STATE, sname), [t], {})
+        t.attrs['state'] = st
+        t.attrs['abort_reason'] = 'Requested'
+        it.hooks[f'{MGR}:TransferManager.find_transfer'] = lambda it2, f, a, k: t if (len(a) < 4 or getattr(a[3], 'name', None) == direction) else None
+        it.hooks[f'{MGR}:TransferManager.request_management_cycle'] = lambda it2, f, a, k: None
+        it.natives['aioslsk.utils.task_counter'] = Native('task_counter', lambda it2, a, k: 1)
+        sentm = []
+        conn = Stub('connection', username='user', send_message=Recorder('send', fn=lambda it2, a, k: sentm.append(a[0]), is_async=True),
+                    queue_message=Recorder('queue_message', fn=lambda it2, a, k: sentm.append(a[0])))
+        settings = Stub('settings', users=Stub('users', is_blocked=Recorder('is_blocked', ret=False)))
+        shares = Stub('shares', find_shared_item=Recorder('find_shared_item', ret=Stub('item'), is_async=True))
+        mgr = new(it, MGR, 'TransferManager', _settings=settings, _shares_manager=shares, _transfers=[t])
+        before = list(it.aio.tasks)
+        tag = f'{hname}[{direction.lower()},{sname[:-5].upper()}]'
+        try:
+            run(it, it.getattr(mgr, hname), mk_msg(it), conn)
+        except PyRaise as pr:
+            ctx.fail(f'C06.final.peer-message.{tag}.no-raise', repr(pr.exc))
+            return
+        new_tasks = [x for x in it.aio.tasks if not any(x is b for b in before)]
+        ctx.prove(f'C06.final.peer-message.{tag}.stays', t.attrs['state'] is st and not notified and not new_tasks
+                  and t.attrs['_transfer_task'] is None and t.attrs['_remotely_queue_task'] is None,
+                  f'a peer message brought a transfer back that the user stopped: state object replaced={t.attrs["state"] is not st}, '
+                  f'notifications={len(notified)}, tasks started={len(new_tasks)}')
+        if hname == '_on_peer_transfer_request' or (hname == '_on_peer_transfer_queue' and sname == 'AbortedState'):
+            refusals = [m for m in sentm if isinstance(m, Obj) and (
+                (m.cls.qual == 'PeerTransferReply.Request' and m.attrs.get('allowed') is False) or m.cls.qual == 'PeerTransferQueueFailed.Request')]
+            ctx.prove(f'C06.final.peer-message.{tag}.refused', len(refusals) == 1 and len(sentm) == 1 and refusals[0].attrs.get('reason') == 'Cancelled',
+                      f'the peer must be told once that the transfer was cancelled; sent {[getattr(m, "cls", m) for m in sentm]}')
+    ex.run(path, 'peer-messages-after-stop')
+
+
 def prove_stale_dispatch(src_root, ex: Explorer):
     """Finality of abort needs that an operation issued on a STALE state object (a fail() / complete() / queue() that was waiting for the
     state lock while abort ran) is re-dispatched on the state that is current once the lock is held - where ABORTED refuses it.  This is
@@ -275,6 +342,13 @@ def prove_relies_on(src_root, ex: Explorer, which):
         from contracts import C11
         C11.prove_race(src_root, ex)
         pre, new_ = 'C11.', 'C06.final.no-connection-later.'
+    elif which == 'attempts':
+        # the two attempts themselves: a cancelled direct / indirect attempt leaves no connection, no registered request and no waiter
+        # for the ticket behind (a late PeerPierceFirewall would otherwise be accepted after abort returned)
+        from contracts import C11
+        C11.prove_indirect(src_root, ex)
+        C11.prove_direct(src_root, ex)
+        pre, new_ = 'C11.', 'C06.final.no-connection-later.'
     else:
         from contracts import C08
         C08.prove_evaluate(src_root, ex)
@@ -285,8 +359,8 @@ def prove_relies_on(src_root, ex: Explorer, which):
 
 
 def items(src_root, tier):
-    return [('relies', 'race'), ('relies', 'evaluate'), ('slot', None), ('assigns', None), ('callbacks', None), ('cancel', None), ('queue_remotely', None), ('request_site', None), ('remove', None),
-            ('stale', None)]
+    return [('relies', 'race'), ('relies', 'attempts'), ('relies', 'evaluate'), ('slot', None), ('assigns', None), ('callbacks', None), ('cancel', None), ('queue_remotely', None), ('request_site', None), ('remove', None),
+            ('stale', None), ('peer-messages', None)]
 
 
 def run_item(src_root, item, tier):
@@ -298,16 +372,18 @@ def run_item(src_root, item, tier):
             prove_relies_on(src_root, ex, arg)
             collect(res, ex)
             res.functions.update(['network.network:Network._create_peer_connection_race'] if arg == 'race' else
+                                 ['network.network:Network._make_indirect_connection', 'network.network:Network._make_direct_connection'] if arg == 'attempts' else
                                  ['transfer.manager:TransferManager._evaluate_aborted_state', 'transfer.manager:TransferManager.manage_shares_changed'])
             return res
         {'slot': prove_slot_selection, 'assigns': prove_manage_assigns, 'callbacks': prove_done_callbacks, 'cancel': prove_cancel_all,
          'queue_remotely': prove_queue_remotely, 'request_site': prove_transfer_request_site, 'remove': prove_remove,
-         'stale': prove_stale_dispatch}[kind](src_root, ex)
+         'stale': prove_stale_dispatch, 'peer-messages': prove_peer_messages_after_stop}[kind](src_root, ex)
     except Unsupported as e:
         res.errors.append(f'{kind}: unsupported: {e}')
     collect(res, ex)
     res.functions.update([f'{MGR}:TransferManager.{m}' for m in ('manage_transfers', '_get_queued_transfers', '_queue_remotely',
-                                                                '_on_peer_transfer_request', 'remove')])
+                                                                '_on_peer_transfer_request', 'remove', '_on_peer_transfer_queue',
+                                                                '_on_peer_upload_failed', '_on_peer_transfer_queue_failed')])
     res.functions.update([f'{MODEL}:Transfer.{m}' for m in ('get_tasks', 'cancel_tasks', '_remotely_queue_task_complete', '_transfer_task_complete')])
     res.functions.update([f'{STATE}:TransferState._cancel_transfer_tasks', f'{STATE}:TransferState._stop_transfer', f'{STATE}:_with_state_lock.<locals>.wrapper'])
     return res
